@@ -1108,6 +1108,10 @@ pub fn arb_big(fam: &Fam) -> BoxedStrategy<BigCase> {
         arb_cuts(),
     )
         .prop_map(|(pre, template, post, style, frame_len, chunk, cuts)| BigCase { pre, template, post, style, frame_len, chunk, cuts })
+        // One evaluation delivers a stream of up to 140 KiB about ten times: thousands of shrink
+        // steps would take the better part of an hour. The case is compact as it is (the big
+        // body is described by style and frame_len, not stored).
+        .no_shrink()
         .boxed()
 }
 
